@@ -77,6 +77,9 @@ type Violation struct {
 // orders somewhere in every run.
 var ProcWarm func(mode int)
 
+// ProcCounters, when set, contributes process-wide counters to the child's result (e.g. what the library logged).
+var ProcCounters func() map[string]int64
+
 // ProcModeFor derives the mode of the child that starts at case `from`.
 //
 // Modes 3..5 are 0..2 with, in addition, user-installed package defaults in force for the whole process (an active
